@@ -9,7 +9,8 @@ import Frp.Props.C15
     reset                                        => -
     reg <id> <ops> <kind> <x1> <x2>              => -
     call <Op> <a> <b>                            => <res> | <consulted>
-    site <…>                                     => handled in `siteStep`
+    site <…>                                     => `siteExpected`
+    sess <user> <script>                         => `sessExpected`
       res       = ok <a'> <b'> | err <msg> | panic          (gated ops)
                 = ok | errs <id,id,…>                       (CloseProxy)
       consulted = - | <id>:<a>:<b>,<id>:<a>:<b>,…           (Handle calls, in order, content seen)
@@ -63,6 +64,7 @@ def behOf (kind : String) (x1 x2 : Str) : Option Beh :=
   | "hreset" => some .hconn
   | "hrefused" => some .hconn
   | "hrejsuf" => some (.hrejsuf x1 x2)
+  | "herrsuf" => some (.herrsuf x1)
   | k => if k.startsWith "hs" then (k.drop 2).toString.toNat?.map .hstatus else none
 
 def parseOps (s : String) : List Str :=
@@ -196,6 +198,99 @@ def siteExpected (m : Manager Content) (u p : Str) (x : String) (impl : String) 
         some (fin "ok" N P "-" W (wL ++ wN ++ wP ++ wW), !silent)
     | _, _, _ => none
 
+/-! ### `sess`: one session with several proxies (see harness/eng_plugin_sess.go)
+
+  Login, then a script of NewProxy / CloseProxy messages, then the end of the session.  The session's
+  bookkeeping and its notification goroutines are the proved `SessP` (`C15.sessP_notes`,
+  `C15.notify_all_schedules`); which registrations succeed after the NewProxy chain passed is taken
+  over from the implementation (except that a name already registered must be refused).  The
+  CloseProxy requests the plugin server received are judged by `C15.notifyHoldsOn`. -/
+
+inductive SessTok
+  | n (p : Str) | c (p : Str) | k (i : Nat)
+
+def parseSessTok (t : String) : Option SessTok :=
+  let rest := (t.drop 1).toString
+  if t.startsWith "n" then (unhx rest).map .n
+  else if t.startsWith "c" then (unhx rest).map .c
+  else if t.startsWith "k" then rest.toNat?.map .k
+  else none
+
+def parseScript (s : String) : Option (List SessTok) :=
+  if s = "-" then some [] else (s.splitOn ",").mapM parseSessTok
+
+structure SessAcc where
+  sp : SessP Content := {}
+  refs : List Str := []          -- per step: the name a later `k i` refers to
+  res : List String := []
+  wN : List String := []
+  reported : Bool := true
+  obs : List String              -- the implementation's per-step results not yet consumed
+  panics : Bool := false
+
+/-- the CloseProxy requests of the implementation's wire as `Handle` calls -/
+def parseCloseWire (w : String) : Option (List (Seen Content)) :=
+  if w = "-" then some [] else
+  ((w.splitOn ",").filter (·.startsWith "CloseProxy:")).mapM (fun e =>
+    match e.splitOn ":" with
+    | _ :: i :: a :: b :: _ => do
+      let i ← i.toNat?
+      let a ← unhx a
+      let b ← unhx b
+      pure (i, (⟨a, b⟩ : Content))
+    | _ => none)
+
+/-- (expected result line, property predicate on the implementation's own wire) -/
+def sessExpected (m : Manager Content) (u : Str) (script : List SessTok) (impl : String) :
+    Option (String × Bool) :=
+  let (obsRes, obsWire) := match impl.splitOn " | " with
+    | [r, w] => (r.splitOn ";", w)
+    | _ => ([], "-")
+  let fin (L : String) (S : List String) (wire : List String) : String :=
+    s!"L={L};S={if S.isEmpty then "-" else ",".intercalate S} | " ++
+      (if wire.isEmpty then "-" else ",".intercalate wire)
+  let rL := m.login ⟨u, []⟩
+  let wL := wireOf "Login" .login m.loginPlugins true rL.2
+  match rL.1 with
+  | .panic => none
+  | .error msg => some (fin "no" [] wL, !(respError true [1] msg).isEmpty)
+  | .ok cL =>
+    if fieldOf obsRes "L" = "no" then some (fin "no" [] wL, true) else
+    let user := cL.a
+    let R := m.closeProxyPlugins
+    let mk : Str → Content := fun n => ⟨n, user⟩
+    let close (a : SessAcc) (p : Str) : SessAcc :=
+      { a with sp := a.sp.step R mk (.closeProxy p), refs := a.refs ++ [p], res := a.res ++ ["-"],
+               obs := a.obs.drop 1 }
+    let acc := script.foldl (fun (a : SessAcc) t =>
+      match t with
+      | .c p => close a p
+      | .k i => close a (a.refs.getD i [])
+      | .n p =>
+        let rN := m.newProxy ⟨p, user⟩
+        let a := { a with wN := a.wN ++ wireOf "NewProxy" .newProxy m.newProxyPlugins false rN.2 }
+        let o := a.obs.headD "?"
+        let a := { a with obs := a.obs.drop 1 }
+        let no (a : SessAcc) : SessAcc := { a with refs := a.refs ++ [p], res := a.res ++ ["no"] }
+        match rN.1 with
+        | .panic => { a with panics := true }
+        | .error msg => { no a with reported := a.reported && !(respError true [1] msg).isEmpty }
+        | .ok cN =>
+          let name := cN.a
+          if a.sp.proxies.contains name then no a           -- RegisterProxy: the name is in use
+          else if o = "no" then no a                        -- registration failed after the plugins
+          else { a with sp := a.sp.step R mk (.newProxy name), refs := a.refs ++ [name],
+                        res := a.res ++ ["ok:" ++ hx name] })
+      ({ obs := (fieldOf obsRes "S").splitOn "," } : SessAcc)
+    if acc.panics then none else
+    let sp := acc.sp.step R mk .sessionEnd
+    let wC := (sp.notes.flatMap (fun g => wireOf "CloseProxy" .closeProxy R false g)).mergeSort
+      (fun a b => decide (a ≤ b))
+    let prop := match parseCloseWire obsWire with
+      | some obs => C15.notifyHoldsOn R mk sp.stopped obs
+      | none => false
+    some (fin "ok" acc.res (wL ++ acc.wN ++ wC), acc.reported && prop)
+
 def pluginStep (st : PluginState) (tok : List String) (impl : String) : PluginState × Verdict :=
   match tok with
   | ["reset"] => ({}, verdictOf "-" impl)
@@ -244,6 +339,14 @@ def pluginStep (st : PluginState) (tok : List String) (impl : String) : PluginSt
       | none => (st, .skip "model panics")
       | some (e, reported) => (st, verdictOf e impl (some (e == impl && reported)))
     | _, _ => (st, .bad "site")
+  | ["sess", u, script] =>
+    if impl.startsWith "skip" || impl.startsWith "infra" then (st, .skip impl) else
+    match unhx u, parseScript script with
+    | some u, some script =>
+      match sessExpected st.mgr u script impl with
+      | none => (st, .skip "model panics")
+      | some (e, prop) => (st, verdictOf e impl (some (e == impl && prop)))
+    | _, _ => (st, .bad "sess")
   | _ => (st, .bad "op")
 
 def plugin : Engine := { State := PluginState, init := {}, step := pluginStep }
